@@ -11,15 +11,17 @@ import (
 
 // Simulation hooks: no-ops unless the package is built with the verif tag.
 
-func simNProcs(n int) int                { return n }
-func simSpawn(int)                       {}
-func simEnter()                          {}
-func simExit()                           {}
-func simJoin()                           {}
-func simBeforeRW(*sync.RWMutex, bool)    {}
-func simBeforeMutex(*sync.Mutex)         {}
-func simBeforeSend(chan osm.Object)      {}
-func simBeforeRecv(chan osm.Object)      {}
-func simBeforeClose(chan osm.Object)     {}
-func simBeforeLockAny(interface{}, bool) {}
-func simYield()                          {}
+func simNProcs(n int) int                 { return n }
+func simSpawn(int)                        {}
+func simEnter()                           {}
+func simExit()                            {}
+func simJoin()                            {}
+func simBeforeRW(*sync.RWMutex, bool)     {}
+func simBeforeMutex(*sync.Mutex)          {}
+func simBeforeSend(chan osm.Object)       {}
+func simBeforeRecv(chan osm.Object)       {}
+func simBeforeClose(chan osm.Object)      {}
+func simBeforeLockAny(interface{}, bool)  {}
+func simYield()                           {}
+func simRelease(interface{}, bool)        {}
+func simAccess(interface{}, bool, string) {}
